@@ -402,7 +402,7 @@ func (ev *Eval) binop(v *ssa.BinOp) *Term {
 			}
 		}
 	}
-	return &Term{K: KBin, Name: v.Op.String(), Args: []*Term{x, y}}
+	return &Term{K: KBin, Name: v.Op.String(), Args: []*Term{x, y}, Type: v.Type()}
 }
 
 // ---- phis and loops
